@@ -39,6 +39,7 @@ func runC17(c *Ctx) {
 	c.floor("C17.R1", 5)
 	c.floor("C17.R2", 3)
 	c.floor("C17.R3", 4)
+	c.floor("C17.R4", 5)
 	writers := 0
 	for _, fn := range g.stateFuncs() {
 		ws := g.writes(fn)
@@ -162,8 +163,83 @@ func c17R1(c *Ctx, g *gossipAnchors, fn *ssa.Function, ws []gWrite) {
 		} else {
 			c.undecided("C17.R1", key, w.instr.Pos(), "store is reachable in more than one automaton state")
 		}
+		// R4: shape of the stored entry
+		c17R4(c, g, fn, w)
 	}
 	_ = p
+}
+
+// R4: a locally written entry is built field by field (never copied from
+// another entry, except the compaction re-insert which R3 covers), is stored
+// under its own Key, and is marked Deleted exactly when it is a tombstone with
+// an empty value.
+func c17R4(c *Ctx, g *gossipAnchors, fn *ssa.Function, w gWrite) {
+	al, _ := entryVarOf(w.val).(*ssa.Alloc)
+	key := fnName(fn) + "/entry-shape[" + keyDesc(w.key) + "]"
+	if al == nil {
+		c.undecided("C17.R4", key, w.instr.Pos(), "stored entry is not a local Entry value")
+		return
+	}
+	copied := false
+	for _, r := range *al.Referrers() {
+		if st, ok := r.(*ssa.Store); ok && st.Addr == ssa.Value(al) {
+			copied = true
+		}
+	}
+	if copied {
+		// only the compaction re-insert may copy (checked field-by-field in R3)
+		isCompaction := false
+		for _, w2 := range g.writes(fn) {
+			if w2.kind == "entries-reset" {
+				isCompaction = true
+			}
+		}
+		c.check(isCompaction, "C17.R4", key, w.instr.Pos(), "compaction re-inserts the snapshot element (see R3)",
+			"the stored entry is a copy of another entry with some fields overwritten: flags such as Deleted carry over into the new write")
+		return
+	}
+	var keyV, delV, valV ssa.Value
+	for _, fsx := range fieldStores(al) {
+		switch fsx.f {
+		case g.eKey:
+			keyV = fsx.st.Val
+		case g.eDeleted:
+			delV = fsx.st.Val
+		case g.eValue:
+			valV = fsx.st.Val
+		}
+	}
+	keyOK := keyV != nil && sameValue(keyV, w.key)
+	if !keyOK && keyV != nil {
+		// Key copied from the entry looked up under the same key
+		if b, ok := loadedField(keyV, g.eKey); ok {
+			if a2, ok := b.(*ssa.Alloc); ok {
+				if v, _ := singleStore(a2); v != nil {
+					if ex, ok := v.(*ssa.Extract); ok {
+						if lk, ok := ex.Tuple.(*ssa.Lookup); ok && sameValue(lk.Index, w.key) {
+							keyOK = true
+						}
+					}
+				}
+			}
+		}
+	}
+	tomb := false
+	if delV != nil {
+		b, isC := constBool(delV)
+		if !isC {
+			c.fail("C17.R4", key, w.instr.Pos(), "the stored entry's Deleted flag is not a constant: it may carry a stale tombstone flag into a live write")
+			return
+		}
+		tomb = b
+	}
+	valOK := true
+	if tomb {
+		sv, ok := constString(valV)
+		valOK = valV == nil || (ok && sv == "")
+	}
+	c.check(keyOK && valOK, "C17.R4", key, w.instr.Pos(), "entry built field by field, stored under its own key, Deleted constant",
+		"the stored entry's Key is not the key it is stored under, or a tombstone carries a value")
 }
 
 func keyDesc(v ssa.Value) string {
